@@ -14,6 +14,8 @@ from common import Codec
 
 KEYS = ['a', 'b', 1, 1.0, (1, 2), b'a', None, 2 ** 64, 'c']
 VALS = [0, 'v', b'y' * 20, None, [1] * 9, 2.5]
+UNSTORABLE_EXCLUDED = ('setdefault',)      # until the model's setdefault propagates a failing add
+UNSTORABLE = 'x\ud800'       # text that cannot be stored: rejected with an exception, nothing changes (C01)
 
 
 def gen_history(rng, length):
@@ -27,7 +29,7 @@ def gen_history(rng, length):
         op = {'m': m, 'now': 1000}
         if m == 'update':
             op['how'] = rng.choice(['pairs', 'dict'])
-            pairs = [(rng.choice(KEYS), rng.choice(VALS)) for _ in range(rng.randint(0, 4))]
+            pairs = [(rng.choice(KEYS), rng.choice(VALS) if rng.random() > 0.03 else UNSTORABLE) for _ in range(rng.randint(0, 4))]
             op['pairs'] = list(dict(pairs).items()) if op['how'] == 'dict' else pairs
         if m in ('eq', 'ne'):
             op['ordered'] = rng.choice([0, 1])
@@ -35,7 +37,7 @@ def gen_history(rng, length):
         if m in ('setitem', 'getitem', 'delitem', 'setdefault', 'pop'):
             op['k'] = rng.choice(KEYS)
         if m in ('setitem', 'setdefault'):
-            op['v'] = rng.choice(VALS)
+            op['v'] = rng.choice(VALS) if (rng.random() > 0.04 or m in UNSTORABLE_EXCLUDED) else UNSTORABLE
         if m == 'pop':
             op['hasdefault'] = rng.choice([0, 1])
         if m in ('popitem', 'peekitem'):
@@ -52,11 +54,13 @@ def mirror_step(od, op, rng):
     m, k = op['m'], op.get('k')
     try:
         if m == 'setitem':
-            od[k] = op['v']
+            if op['v'] != UNSTORABLE:
+                od[k] = op['v']
         elif m == 'delitem':
             del od[k]
         elif m == 'setdefault':
-            od.setdefault(k, op['v'])
+            if op['v'] != UNSTORABLE:
+                od.setdefault(k, op['v'])
         elif m == 'pop':
             od.pop(k, None)
         elif m == 'popitem':
@@ -64,7 +68,10 @@ def mirror_step(od, op, rng):
         elif m == 'clear':
             od.clear()
         elif m == 'update':
-            od.update(op['pairs'])
+            for kk, vv in op['pairs']:
+                if vv == UNSTORABLE:
+                    break
+                od[kk] = vv
         elif m in ('eq', 'ne'):
             pairs = list(od.items())
             how = rng.choice(['same', 'same', 'reorder', 'value', 'fewer', 'more', 'swapkey'])
@@ -102,7 +109,11 @@ def acceptor(hist, io):
         m = op['m']
         k = op.get('k')
         try:
-            if m == 'setitem':
+            if m == 'setitem' and op['v'] == UNSTORABLE:
+                want = '!UnicodeEncodeError'
+            elif m == 'setdefault' and op['v'] == UNSTORABLE and ck(k) not in od:
+                want = '!UnicodeEncodeError'
+            elif m == 'setitem':
                 c = ck(k)
                 od[c] = (od[c][0] if c in od else base.line_field(line, 'k'), op['v']); want = 'n'
             elif m == 'getitem':
@@ -142,10 +153,13 @@ def acceptor(hist, io):
                 od.clear(); want = 'n'
             elif m == 'update':
                 ktoks = (base.line_field(line, 'ks') or '-').split(';')
+                want = 'n'
                 for (kk, vv), tok in zip(op['pairs'], ktoks):
+                    if vv == UNSTORABLE:
+                        want = '!UnicodeEncodeError'
+                        break
                     c = ck(kk)
                     od[c] = (od[c][0] if c in od else tok, vv)
-                want = 'n'
             elif m == 'keys':
                 want = '[' + ','.join(od[c][0] for c in od) + ']'
             elif m == 'values':
